@@ -6,6 +6,7 @@ package handshake
 import (
 	"bytes"
 	"encoding/binary"
+	"math"
 
 	dtlserrors "github.com/pion/dtls/v3/internal/errors"
 	"github.com/pion/dtls/v3/pkg/protocol"
@@ -55,6 +56,9 @@ func (m *MessageClientHello) Marshal() ([]byte, error) {
 		return nil, err
 	}
 
+	if len(m.CipherSuiteIDs) > math.MaxUint16/2 {
+		return nil, dtlserrors.ErrVectorTooLong
+	}
 	encodedCipherSuiteIDs := encodeCipherSuiteIDs(m.CipherSuiteIDs)
 	encodedCompressionMethods := protocol.EncodeCompressionMethods(m.CompressionMethods)
 
